@@ -85,6 +85,7 @@ class LocationAction(object):
         self.__stats = TracepointExecutionStats()
         self.__action_type = action_type
         self.__location: Optional['Location'] = None
+        self.__configured: Optional[TracePointConfig] = None
 
     @property
     def id(self) -> str:
@@ -149,8 +150,24 @@ class LocationAction(object):
             del args[WATCHES]
         if LOG_MSG in args and args[LOG_MSG] is None:
             del args[LOG_MSG]
+        if self.__configured is not None:
+            # name the tracepoint as it was configured: its line, its watches, and every argument it was given (the
+            # condition, the method name, arguments we do not know) next to the values we used for what it left out
+            args.update(self.__configured.args)
+            return TracePointConfig(self.id, self.__configured.path, self.__configured.line_no, args,
+                                    list(self.__configured.watches), [])
         return TracePointConfig(self.id, self.__location.path, self.__location.line, args,
                                 self.__config.get(WATCHES, []), [])
+
+    def configured_as(self, tracepoint: TracePointConfig) -> 'LocationAction':
+        """
+        Attach the tracepoint config this action was built from.
+
+        :param tracepoint: the tracepoint as the service sent it, or as it was registered in code
+        :return: self
+        """
+        self.__configured = tracepoint
+        return self
 
     def __fire_period_ns(self):
         return self.fire_period * 1_000_000
@@ -681,7 +698,8 @@ def build_trigger(tp_id: str, path: str, line_no: int, args: Dict[str, str], wat
     metric_action = build_metric_action(tp_id, args, metrics)
     span_action = build_span_action(tp_id, args)
 
-    actions = [action for action in [snap_action, log_action, metric_action, span_action] if
+    configured = TracePointConfig(tp_id, path, line_no, dict(args), list(watches), [])
+    actions = [action.configured_as(configured) for action in [snap_action, log_action, metric_action, span_action] if
                action is not None]
 
     return Trigger(location, actions)
